@@ -2,9 +2,11 @@ package main
 
 import (
 	"fmt"
+	"math/rand"
 	"os"
 	"os/exec"
 	"path/filepath"
+	"strings"
 	"sync"
 	"syscall"
 	"time"
@@ -352,4 +354,130 @@ func engineLoadFaults(ctx *Ctx) {
 	if unprivileged {
 		ctx.R.Extra["ran_unprivileged_shards"] = 1
 	}
+	c15SizesAndSpellings(ctx, r, dir, &caseNo)
+}
+
+// c15SizesAndSpellings: loadable files must give the real database whatever their size (around 1, 4, 8, 16 MiB and more) and
+// however the path to them is spelt (./, //, a/../, through a symbolic link to a directory and back up with .. - where
+// the operating system resolves .. after following the link, so the file meant is not the one a lexical clean-up names).
+func c15SizesAndSpellings(ctx *Ctx, r *rand.Rand, dir string, caseNo *int) {
+	cfg := recovery.RetryConfig{MaxAttempts: 2, BaseDelay: 10 * time.Microsecond, MaxDelay: 100 * time.Microsecond, BackoffFactor: 2}
+	mine := func() bool { *caseNo++; return *caseNo%ctx.NShards == ctx.Shard }
+	check := func(cs map[string]interface{}, mainPath, persPath string, want []vlib.Cmd, class string) {
+		ctx.R.Begin(cs)
+		ctx.R.Eval(1)
+		var db *database.Database
+		var err error
+		if !ctx.R.Guard("C15", "LoadDatabaseWithFallback", cs, func() { db, err = recovery.NewDatabaseRecovery(cfg).LoadDatabaseWithFallback(mainPath, persPath) }) {
+			return
+		}
+		ctx.R.Path(class, 1)
+		ctx.R.Nontriv(class, fmt.Sprint(cs))
+		if err != nil || db == nil {
+			ctx.R.Violate(vlib.Violation{Property: "C15", Clause: "returns-error", Path: "LoadDatabaseWithFallback", Detail: fmt.Sprintf("loading for a search ended with %v", err), Witness: cs})
+			return
+		}
+		ok := len(db.Commands) == len(want)
+		for i := 0; ok && i < len(want); i++ {
+			ok = db.Commands[i].Command == want[i].Command && db.Commands[i].Description == want[i].Description
+		}
+		if !ok {
+			first := ""
+			if len(db.Commands) > 0 {
+				first = db.Commands[0].Command
+			}
+			ctx.R.Violate(vlib.Violation{Property: "C15", Clause: "real-database-not-returned", Path: "LoadDatabaseWithFallback/" + class,
+				Detail:  fmt.Sprintf("main and notebook are loadable, yet the returned database has %d entries (first %s) instead of the %d entries of main followed by notebook", len(db.Commands), vlib.Q(vlib.Trunc(first, 40)), len(want)),
+				Witness: cs})
+		}
+	}
+	// ---- sizes
+	sizes := []int{1 << 20, 4 << 20, 8 << 20, 16 << 20}
+	if ctx.Thorough {
+		sizes = append(sizes, 32<<20, 64<<20)
+	}
+	small := vlib.StripCaches(vlib.GenCommands(r, vlib.DBSpec{N: 4, PseudoCmd: true}))
+	for _, sz := range sizes {
+		for _, where := range []string{"main", "notebook"} {
+			for _, delta := range []int{-4096, 4096} {
+				if !mine() {
+					continue
+				}
+				// entries with long descriptions: the file is large, the number of entries moderate
+				n := 400
+				per := (sz + delta) / n
+				big := make([]vlib.Cmd, n)
+				for i := range big {
+					big[i] = vlib.Cmd{Command: fmt.Sprintf("bigtool%d --run", i), Description: strings.Repeat(fmt.Sprintf("w%d lorem ipsum dolor ", i%7), per/20), Keywords: []string{"big"}}
+				}
+				mp, pp := filepath.Join(dir, "size-main.yml"), filepath.Join(dir, "size-pers.yml")
+				var want []vlib.Cmd
+				if where == "main" {
+					vlib.WriteYAML(mp, big)
+					vlib.WriteYAML(pp, small)
+					want = append(append([]vlib.Cmd{}, big...), small...)
+				} else {
+					vlib.WriteYAML(mp, small)
+					vlib.WriteYAML(pp, big)
+					want = append(append([]vlib.Cmd{}, small...), big...)
+				}
+				fi, _ := os.Stat(map[string]string{"main": mp, "notebook": pp}[where])
+				var flen int64
+				if fi != nil {
+					flen = fi.Size()
+				}
+				check(map[string]interface{}{"class": "large-file", "which": where, "file_bytes": flen, "entries": n}, mp, pp, want, "large-files")
+				if flen > 8<<20 {
+					ctx.R.Path("large-files-over-8MiB", 1)
+				}
+				os.Remove(mp)
+				os.Remove(pp)
+			}
+		}
+	}
+	// ---- spellings
+	realDir := filepath.Join(dir, "store", "deep")
+	os.MkdirAll(realDir, 0o755)
+	os.MkdirAll(filepath.Join(dir, "store", "sub"), 0o755)
+	os.MkdirAll(filepath.Join(dir, "entry"), 0o755)
+	os.Remove(filepath.Join(dir, "entry", "link"))
+	os.Symlink(realDir, filepath.Join(dir, "entry", "link")) // entry/link -> store/deep ; entry/link/.. is store/
+	realMain := vlib.StripCaches(vlib.GenCommands(r, vlib.DBSpec{N: 5, PseudoCmd: true}))
+	realPers := vlib.StripCaches(vlib.GenCommands(r, vlib.DBSpec{N: 2, PseudoCmd: true}))
+	decoy := vlib.StripCaches(vlib.GenCommands(r, vlib.DBSpec{N: 3}))
+	vlib.WriteYAML(filepath.Join(dir, "store", "commands.yml"), realMain)
+	vlib.WriteYAML(filepath.Join(dir, "store", "personal.yml"), realPers)
+	both := append(append([]vlib.Cmd{}, realMain...), realPers...)
+	for _, withDecoy := range []bool{false, true} {
+		if withDecoy { // a different database where a lexical clean-up of entry/link/../commands.yml points
+			vlib.WriteYAML(filepath.Join(dir, "entry", "commands.yml"), decoy)
+		}
+		spell := map[string]string{
+			"plain":               filepath.Join(dir, "store") + "/commands.yml",
+			"dot":                 filepath.Join(dir, "store") + "/./commands.yml",
+			"double-slash":        filepath.Join(dir, "store") + "//commands.yml",
+			"down-and-up":         filepath.Join(dir, "store") + "/sub/../commands.yml",
+			"symlink-then-dotdot": filepath.Join(dir, "entry") + "/link/../commands.yml",
+			"symlink-deep-dotdot": filepath.Join(dir, "entry") + "/link/./../commands.yml",
+		}
+		names := []string{"plain", "dot", "double-slash", "down-and-up", "symlink-then-dotdot", "symlink-deep-dotdot"}
+		for _, nm := range names {
+			for _, persSame := range []bool{false, true} {
+				if !mine() {
+					continue
+				}
+				mp := spell[nm]
+				pp := filepath.Join(dir, "store", "personal.yml")
+				if persSame {
+					pp = strings.Replace(mp, "commands.yml", "personal.yml", 1)
+				}
+				check(map[string]interface{}{"class": "path-spelling", "spelling": nm, "main_path": mp, "personal_path": pp, "decoy_at_lexical_location": withDecoy}, mp, pp, both, "path-spellings")
+				if strings.HasPrefix(nm, "symlink") {
+					ctx.R.Path("path-spellings-through-symlink", 1)
+				}
+			}
+		}
+	}
+	os.RemoveAll(filepath.Join(dir, "store"))
+	os.RemoveAll(filepath.Join(dir, "entry"))
 }
